@@ -8,6 +8,8 @@
    eval a ρ n l / evals a ρ l b  value of literal l of graph a under the assignment ρ to inputs and latch states
    same_function a a' l l'       l in a and l' in a' have the same value under every assignment (and are defined)
    wf_defs a                     no variable is defined twice (constant, inputs, latch states, gate outputs)
+   check_order a                 0 :: inputs ++ gate outputs ++ latch states: the order in which the code checks definitions
+   first_clash xs l              xs = pre ++ l :: post, the variables of pre are distinct, the variable of l is among them
    dep a u v                     some gate defining variable u has variable v as an input *)
 From Coq Require Import NArith List Relations.Relation_Operators.
 From Flussab Require Import Aig Renumber RenumberProofs RenumberTerm.
@@ -48,11 +50,12 @@ Theorem C12_numbering : forall o,
 Proof. exact aig_of_ordered_numbering. Qed.
 Print Assumptions C12_numbering.
 
-(* SOUNDNESS.  For every graph without a doubly defined variable, all 8 option combinations and
-   all assignments: every lit_map entry, every latch next-state (reset values unchanged), output,
-   bad-state, constraint, justice and fairness literal has the same value before and after. *)
+(* SOUNDNESS.  For every graph for which a circuit is returned, all 8 option combinations and all
+   assignments: every lit_map entry, every latch next-state (reset values unchanged), output,
+   bad-state, constraint, justice and fairness literal has the same value before and after.
+   No well-formedness hypothesis: the checks of lit_defs and initialize imply it (C12_ok_wf). *)
 Theorem C12_sound : forall cfg a o r,
-  wf_defs a -> renumber_aig cfg a = RnOk o r ->
+  renumber_aig cfg a = RnOk o r ->
   let a' := aig_of_ordered o in
   (forall l t, lm_get (r_map r) l = Some t -> same_function a a' l t) /\
   Forall2 (fun l t => same_function a a' (l_next l) (fst t) /\ snd t = l_init l) (a_latches a) (o_latches o) /\
@@ -81,21 +84,45 @@ Theorem C12_cycle_is_real : forall cfg a l,
 Proof. exact renumber_cycle_real. Qed.
 Print Assumptions C12_cycle_is_real.
 
-(* LitAlreadyDefined l is exactly the verdict of lit_defs, which names the first input or gate
-   output whose variable was already defined by the constant, an input or a gate before it ... *)
+(* LitAlreadyDefined l: in the order constant, inputs, gate outputs, latch states, l is the first
+   literal whose variable (either polarity) was defined before it -- and every graph with such a
+   literal is rejected with exactly that literal, under all options. *)
 Theorem C12_redefined_iff : forall cfg a l,
-  renumber_aig cfg a = RnErr (LitAlreadyDefined l) <-> lit_defs a = RErr (LitAlreadyDefined l).
+  renumber_aig cfg a = RnErr (LitAlreadyDefined l) <-> first_clash (check_order a) l.
 Proof. exact renumber_redefined_iff. Qed.
 Print Assumptions C12_redefined_iff.
 
-Theorem C12_redefined_is_real : forall a e, lit_defs a = RErr e ->
+(* No variable is defined twice (latch states included) exactly when LitAlreadyDefined is not returned;
+   in particular a returned circuit comes from a graph without double definitions. *)
+Theorem C12_wf_iff : forall cfg a,
+  wf_defs a <-> forall l, renumber_aig cfg a <> RnErr (LitAlreadyDefined l).
+Proof. exact renumber_wf_iff. Qed.
+Print Assumptions C12_wf_iff.
+
+Theorem C12_ok_wf : forall cfg a o r, renumber_aig cfg a = RnOk o r -> wf_defs a.
+Proof. exact renumber_ok_wf. Qed.
+Print Assumptions C12_ok_wf.
+
+(* Latches (former finding D10, fixed in /repo 3b322e7): a latch whose state variable is the constant,
+   an input, a gate output or an earlier latch, in either polarity, in a graph without an earlier
+   clash, yields LitAlreadyDefined with that latch's state literal as written. *)
+Theorem C12_latch_clash_rejected : forall cfg a pre s post,
+  map l_state (a_latches a) = pre ++ s :: post ->
+  NoDup (map N.div2 ((0 :: a_inputs a ++ map g_out (a_gates a)) ++ pre)) ->
+  In (N.div2 s) (map N.div2 ((0 :: a_inputs a ++ map g_out (a_gates a)) ++ pre)) ->
+  renumber_aig cfg a = RnErr (LitAlreadyDefined s).
+Proof. exact renumber_latch_clash. Qed.
+Print Assumptions C12_latch_clash_rejected.
+
+(* Aig::lit_defs on its own: it names the first input or gate output whose variable was already defined
+   by the constant, an input or a gate, and succeeds exactly when there is none (latches are checked
+   by initialize). *)
+Theorem C12_lit_defs_redefined : forall a e, lit_defs a = RErr e ->
   exists pre l post, 0 :: a_inputs a ++ map g_out (a_gates a) = pre ++ l :: post /\
     e = LitAlreadyDefined l /\ pre <> [] /\ NoDup (map N.div2 pre) /\ In (N.div2 l) (map N.div2 pre).
 Proof. exact lit_defs_redefined. Qed.
-Print Assumptions C12_redefined_is_real.
+Print Assumptions C12_lit_defs_redefined.
 
-(* ... and lit_defs succeeds exactly when constant, inputs and gate outputs are pairwise distinct
-   variables.  Latch state literals are not looked at (see C12_latch_clash_refuted). *)
 Theorem C12_lit_defs_ok_iff : forall a,
   (exists d, lit_defs a = ROk d) <-> NoDup (checked_vars a).
 Proof. exact lit_defs_ok_iff. Qed.
@@ -110,14 +137,16 @@ Theorem C12_terminates : forall cfg a, renumber_aig cfg a <> RnOutOfFuel.
 Proof. exact renumber_terminates. Qed.
 Print Assumptions C12_terminates.
 
-(* FINDING D10 (unchanged code).  "A doubly defined literal yields the corresponding error" is false
-   for latch state literals: a latch whose state literal is the constant 0 is accepted, and the
-   constant-false output 0 is renumbered to the latch (literal 2), which is true whenever the latch is. *)
-Theorem C12_latch_clash_refuted :
-  exists a, ~ wf_defs a /\ exists cfg o r, renumber_aig cfg a = RnOk o r /\
-    ~ Forall2 (same_function a (aig_of_ordered o)) (a_outputs a) (o_outputs o).
-Proof. exact renumber_latch_clash_refuted. Qed.
-Print Assumptions C12_latch_clash_refuted.
+(* the two witnesses of the former finding D10 (latch state = constant 0; latch state = an input) and the
+   other kinds of clash, on the repaired code *)
+Example C12_latch_clash_examples :
+  let cfg := Config false false false in
+  renumber_aig cfg (Aig 0 [] [Latch 0 0 None] [0] [] [] [] [] []) = RnErr (LitAlreadyDefined 0) /\
+  renumber_aig cfg (Aig 1 [2] [Latch 2 2 None] [2] [] [] [] [] []) = RnErr (LitAlreadyDefined 2) /\
+  renumber_aig cfg (Aig 1 [2] [Latch 3 2 None] [2] [] [] [] [] []) = RnErr (LitAlreadyDefined 3) /\
+  renumber_aig cfg (Aig 2 [2] [Latch 4 2 None] [5] [] [] [] [] [AndGate 2 2 5]) = RnErr (LitAlreadyDefined 4) /\
+  renumber_aig cfg (Aig 3 [2] [Latch 6 2 None; Latch 7 2 None] [6] [] [] [] [] []) = RnErr (LitAlreadyDefined 7).
+Proof. vm_compute. repeat split. Qed.
 
 (* non-vacuity: (2 & 4) shared by two gates, one of them with swapped inputs, x & 1, under all options on *)
 Example C12_example :
